@@ -415,6 +415,14 @@ var c06SysQueries = []string{
 	"MATCH (a) WHERE any(e IN a.arr WHERE e = 1) WITH a AS x RETURN x",
 	"MATCH (a)-[r]->(b) WITH a AS x, count(b) AS c RETURN x.name, c",
 	"MATCH (a) OPTIONAL MATCH (a)-[r]->(b) WITH a AS x, b AS y RETURN x, y",
+	// a path variable (and the other symbols) take every generated identifier in queries that trigger each lowering
+	"MATCH (n) WITH collect(n) AS xs MATCH p = (a)-[r]->(m) WHERE m IN xs RETURN p",                                                                        // collect-ID membership
+	"MATCH (dc)-[r:EdgeKind1*0..]->(g:NodeKind1) WITH collect(dc) AS exclude MATCH p = (c:NodeKind2)-[n:EdgeKind2]->(u) WHERE NOT (c IN exclude) RETURN p", // collect-ID membership, negated
+	"MATCH (n:NodeKind1) MATCH p = (n)-[:EdgeKind1*1..]->(c:NodeKind2) WITH n, count(c) AS cnt RETURN n ORDER BY cnt DESC LIMIT 5",                         // aggregate traversal count
+	"MATCH p = (a:NodeKind1)-[:EdgeKind1*1..]->(b:NodeKind2) RETURN p LIMIT 5",                                                                             // limit pushdown
+	"MATCH p = (a:NodeKind1)-[r:EdgeKind1]->(b) RETURN count(r)",                                                                                           // count fast path
+	"MATCH (n:NodeKind1) RETURN count(n) AS total",                                                                                                         // count fast path
+	"MATCH p = shortestPath((a:NodeKind1)-[:EdgeKind1*1..]->(b:NodeKind2)) WITH p, a RETURN nodes(p), a.name LIMIT 3",
 }
 
 var (
